@@ -58,7 +58,7 @@ def is_number(x):
 _INTERN = {}
 CTX = None  # active PathCtx (set by explore)
 
-KNOWN_FUNCS = ("log", "exp", "sqrt", "li2", "atan", "atanh", "spence")
+KNOWN_FUNCS = ("log", "logabs", "exp", "sqrt", "li2", "li3", "atan", "atanh", "spence")
 
 
 class R:
@@ -118,6 +118,8 @@ class R:
 
     # -- arithmetic ------------------------------------------------------------
     def __add__(self, other):
+        if isinstance(other, (complex, np.complexfloating, Cx)):
+            return getattr(Cx(self, 0), "__add__")(other)
         if R._arr(other):
             return np.add(_obj0(self), other)
         o = R.lift(other)
@@ -126,6 +128,8 @@ class R:
         return add(self, o)
 
     def __radd__(self, other):
+        if isinstance(other, (complex, np.complexfloating, Cx)):
+            return getattr(Cx(self, 0), "__radd__")(other)
         if R._arr(other):
             return np.add(other, _obj0(self))
         o = R.lift(other)
@@ -134,6 +138,8 @@ class R:
         return add(o, self)
 
     def __sub__(self, other):
+        if isinstance(other, (complex, np.complexfloating, Cx)):
+            return getattr(Cx(self, 0), "__sub__")(other)
         if R._arr(other):
             return np.subtract(_obj0(self), other)
         o = R.lift(other)
@@ -142,6 +148,8 @@ class R:
         return add(self, neg(o))
 
     def __rsub__(self, other):
+        if isinstance(other, (complex, np.complexfloating, Cx)):
+            return getattr(Cx(self, 0), "__rsub__")(other)
         if R._arr(other):
             return np.subtract(other, _obj0(self))
         o = R.lift(other)
@@ -150,6 +158,8 @@ class R:
         return add(o, neg(self))
 
     def __mul__(self, other):
+        if isinstance(other, (complex, np.complexfloating, Cx)):
+            return getattr(Cx(self, 0), "__mul__")(other)
         if R._arr(other):
             return np.multiply(_obj0(self), other)
         o = R.lift(other)
@@ -158,6 +168,8 @@ class R:
         return mul(self, o)
 
     def __rmul__(self, other):
+        if isinstance(other, (complex, np.complexfloating, Cx)):
+            return getattr(Cx(self, 0), "__rmul__")(other)
         if R._arr(other):
             return np.multiply(other, _obj0(self))
         o = R.lift(other)
@@ -166,6 +178,8 @@ class R:
         return mul(o, self)
 
     def __truediv__(self, other):
+        if isinstance(other, (complex, np.complexfloating, Cx)):
+            return getattr(Cx(self, 0), "__truediv__")(other)
         if R._arr(other):
             return np.true_divide(_obj0(self), other)
         o = R.lift(other)
@@ -174,6 +188,8 @@ class R:
         return mul(self, inv(o))
 
     def __rtruediv__(self, other):
+        if isinstance(other, (complex, np.complexfloating, Cx)):
+            return getattr(Cx(self, 0), "__rtruediv__")(other)
         if R._arr(other):
             return np.true_divide(other, _obj0(self))
         o = R.lift(other)
@@ -355,6 +371,89 @@ ZERO = R.const(0)
 ONE = R.const(1)
 
 
+class Cx:
+    """Symbolic complex number with symbolic-real parts (asymptotic kernels use complex
+    intermediate arithmetic and take ``.real`` at the end)."""
+
+    __slots__ = ("real", "imag")
+    __array_priority__ = 1001.0
+
+    def __init__(self, re, im=0):
+        self.real = R.lift(re)
+        self.imag = R.lift(im)
+
+    @staticmethod
+    def lift(x):
+        if isinstance(x, Cx):
+            return x
+        if isinstance(x, R) or is_number(x):
+            return Cx(x, 0)
+        if isinstance(x, (complex, np.complexfloating)):
+            return Cx(x.real, x.imag)
+        return None
+
+    def __add__(self, o):
+        o = Cx.lift(o)
+        if o is None:
+            return NotImplemented
+        return Cx(self.real + o.real, self.imag + o.imag)
+
+    __radd__ = __add__
+
+    def __neg__(self):
+        return Cx(-self.real, -self.imag)
+
+    def __sub__(self, o):
+        o = Cx.lift(o)
+        if o is None:
+            return NotImplemented
+        return Cx(self.real - o.real, self.imag - o.imag)
+
+    def __rsub__(self, o):
+        o = Cx.lift(o)
+        if o is None:
+            return NotImplemented
+        return Cx(o.real - self.real, o.imag - self.imag)
+
+    def __mul__(self, o):
+        o = Cx.lift(o)
+        if o is None:
+            return NotImplemented
+        return Cx(self.real * o.real - self.imag * o.imag, self.real * o.imag + self.imag * o.real)
+
+    __rmul__ = __mul__
+
+    def __truediv__(self, o):
+        o = Cx.lift(o)
+        if o is None:
+            return NotImplemented
+        den = o.real * o.real + o.imag * o.imag
+        return Cx((self.real * o.real + self.imag * o.imag) / den, (self.imag * o.real - self.real * o.imag) / den)
+
+    def __rtruediv__(self, o):
+        o = Cx.lift(o)
+        if o is None:
+            return NotImplemented
+        return o.__truediv__(self)
+
+    def __pow__(self, n):
+        if isinstance(n, R) and n.is_const:
+            n = n.value
+        n = to_frac(n)
+        if n.denominator != 1 or n < 0:
+            raise OutOfReach("complex power")
+        r = Cx(1, 0)
+        for _ in range(int(n)):
+            r = r * self
+        return r
+
+    def conjugate(self):
+        return Cx(self.real, -self.imag)
+
+    def __repr__(self):
+        return f"({self.real!r} + {self.imag!r}j)"
+
+
 _SUPPRESS_SIDES = [0]
 
 
@@ -470,6 +569,8 @@ def fn(name, *args):
             return v
     if name == "log":
         record_side("pos", args[0])
+    elif name == "logabs":
+        record_side("nonzero", args[0])
     elif name == "sqrt":
         record_side("nonneg", args[0])
     elif name == "atanh":
